@@ -416,6 +416,60 @@ pub fn run(ctx: &mut Ctx) {
         rep.sample(|| json!({"stage":"hash-order","source":mon::clip(&src, 200),"outcome":mon::clip(&first.show(), 100)}));
     });
 
+    // ---- built-ins hold no memory: every built-in, hostile arguments included, answers the same the first time,
+    // the second time, after other calls ran on the same thread, and on a thread that never ran anything ------------
+    let names: Vec<&'static str> = crate::corpus::NAMES_FUNCS.iter().chain(crate::corpus::NAMES_TYPES.iter()).copied().collect();
+    let pool = crate::vals::full_pool();
+    let hostile: Vec<CelValue> = ["(", "[a", "*", "\\", "(?P<", "a{2,1}", "(?i", "%Q", "not/a_zone", "25:61", "99999999999999999999", "1e400", "kgg", "\u{0}", "+", ")", "a|*"]
+        .iter()
+        .map(|s| CelValue::from_string(s.to_string()))
+        .collect();
+    let nb = ctx.n(15_000, 300_000);
+    ctx.stage("builtin-memory", nb, true, |_idx, rng, rep| {
+        let name = *rng.pick(&names);
+        let shape = *rng.pick(&["{f}(a)", "r.{f}()", "{f}(a, b)", "r.{f}(a)", "r.{f}(a, b)"]);
+        let src = shape.replace("{f}", name);
+        // the clock is the one permitted source of variation (a null receiver counts as no receiver: null.now() is now())
+        if name == "now" || (name == "timestamp" && shape == "r.{f}()") {
+            return;
+        }
+        let pickv = |rng: &mut Rng| -> CelValue {
+            if rng.chance(1, 3) {
+                rng.pick(&hostile).clone()
+            } else {
+                rng.pick(&pool).clone()
+            }
+        };
+        let binds = vec![("r".to_string(), pickv(rng)), ("a".to_string(), pickv(rng)), ("b".to_string(), pickv(rng))];
+        // something else that keeps the same built-in busy with ordinary arguments in between
+        let other = vec![("r".to_string(), CelValue::from_string("abc".into())), ("a".to_string(), CelValue::from_string("a".into())), ("b".to_string(), CelValue::from_string("b".into()))];
+        let first = mon::run1(&src, &binds);
+        let second = mon::run1(&src, &binds);
+        let _ = mon::run1(&src, &other);
+        let third = mon::run1(&src, &binds);
+        let (src2, binds2) = (src.clone(), binds.clone());
+        let fresh = std::thread::spawn(move || {
+            mon::install_panic_hook();
+            mon::run1(&src2, &binds2)
+        })
+        .join()
+        .unwrap_or_else(|_| Out::Panic("thread".into(), "join".into()));
+        rep.evals += 5;
+        rep.count("builtin_memory_cases");
+        rep.count(&format!("builtin_memory_first/{}", first.class().split(':').next().unwrap_or("?")));
+        for (what, o) in [("second-call", &second), ("after-other-arguments", &third), ("fresh-thread", &fresh)] {
+            if o.canon() != first.canon() {
+                rep.viol(
+                    &format!("repetition|builtin-memory|{}", what),
+                    &format!("`{}` under {} gave {} the first time and {} ({})", src, mon::binds_json(&binds), first.show(), o.show(), what),
+                    json!({"source": src, "bindings": mon::binds_json(&binds), "which": what}),
+                );
+                break;
+            }
+        }
+        rep.distinct(&format!("{}|{}", src, mon::binds_json(&binds)), true);
+    });
+
     // ---- threads: 16 threads, cloned contexts, own bindings with equal values --------------------------
     let iters = ctx.n(100, 1000);
     ctx.stage("threads", 1, false, |_idx, _rng, rep| {
